@@ -49,7 +49,8 @@ REQUIRED_BUCKETS = {
     "quick": ["schedule:2proc", "schedule:3proc", "kill:statement", "kill:cc_write1", "kill:cc_write2",
               "kill:cc_done", "kill:after_source_removal", "killcc:cc_write1", "killcc:cc_write2", "killcc:cc_done", "hazard_window_open_during_other_lookup", "publish:rename_observed",
               "first-use-of-missing-cache-directory:2proc", "first-use-of-missing-cache-directory:8proc", "retry:same-process",
-              "peer-holds-unopened-library-while-other-build-fails", "system-build:free", "system-build:killed", "two-editions-of-one-model-id"],
+              "peer-holds-unopened-library-while-other-build-fails", "system-build:free", "system-build:killed", "two-editions-of-one-model-id",
+              "forked-workers:parent-idle", "forked-workers:parent-built-another-model-first"],
 }
 REQUIRED_BUCKETS["thorough"] = REQUIRED_BUCKETS["quick"] + ["stress:4", "stress:8", "stress:16"]
 WATCHDOG_S = {"quick": 1800, "thorough": 4*3600}
@@ -214,6 +215,12 @@ def gen_cases(tier, seed):
         cases.append({"id": "editions/%d" % n, "kind": "editions", "n": n, "group": "ed-%d" % n, "cost": 3})
     for n in (1, 3):
         cases.append({"id": "xfs/%d" % n, "kind": "xfs", "nproc": n, "group": "xfs-%d" % n, "cost": 2})
+    # workers forked from one interpreter, which has or has not built another model itself before forking
+    for pre in ("none", "guinier"):
+        for n in (2, 3, 6):
+            for r in range(1 if tier == "quick" else 6):
+                cases.append({"id": "forked/%s-%d-%d" % (pre, n, r), "kind": "forked", "nproc": n, "prebuild": pre, "rep": r,
+                              "seed": seed, "group": "fk-%s-%d-%d" % (pre, n, r), "cost": n/2})
     if tier == "thorough":
         for n in (4, 8, 16):
             for r in range(12 if n < 16 else 6):
@@ -693,7 +700,48 @@ def run_retry(case, rec):
         shutil.rmtree(work, ignore_errors=True)
 
 
+FORK = os.path.join(HERE, "_c18_fork.py")
+
+
+def run_forked(case, rec):
+    """Workers forked from one interpreter (which may already have built and used another model) load the same
+    not-yet-compiled model at the same time."""
+    ref = reference()
+    work = tempfile.mkdtemp(prefix="c18-", dir=os.environ.get("RTM_SCRATCH"))
+    cache, ctrl = os.path.join(work, "cache"), os.path.join(work, "ctrl")
+    os.makedirs(ctrl)
+    rng = core.rng_for(case["seed"], PROP, "forked", case["nproc"], case["prebuild"], case["rep"])
+    try:
+        ino = Inotify(cache)
+        env = base_env(cache, ctrl, "F", "free")
+        env.update({"RTM_C18_DELAY_%s" % g: "%.4f" % float(rng.choice([0, 0.002, 0.01, 0.05]))
+                    for g in ("cc_write1", "cc_write2")})
+        proc = subprocess.Popen([core.PY, FORK, MODEL, str(case["nproc"]), case["prebuild"]], env=env,
+                                stdout=subprocess.PIPE, stderr=subprocess.PIPE, start_new_session=True, text=True, cwd=HERE)
+        res = result_of(proc, timeout=300)
+        workers = res.get("workers") or {}
+        rec.check("all_processes_succeed", bool(workers) and len(workers) == case["nproc"] and bool(res.get("parent_ok")),
+                  {"forked_workers": case["nproc"], "parent_built_first": case["prebuild"], "reported": len(workers),
+                   "parent_error": res.get("parent_error"), "stderr": res.get("stderr"), "timeout": res.get("timeout")})
+        bad = {t: {k: r.get(k) for k in ("error", "tb", "status")} for t, r in workers.items() if not r.get("ok")}
+        rec.check("all_processes_succeed", not bad,
+                  {"forked_workers": case["nproc"], "parent_built_first": case["prebuild"], "failed": bad},
+                  key="C18/process-failed-under-concurrent-first-use")
+        for t, r in workers.items():
+            if r.get("ok"):
+                rec.check("values_correct", r["Iq"] == ref, {"process": t, "got": r["Iq"], "ref": ref})
+        judge_trace(rec, ino.stop(), {"forked_workers": case["nproc"], "parent_built_first": case["prebuild"]})
+        rec.bucket("forked-workers:parent-" + ("built-another-model-first" if case["prebuild"] != "none" else "idle"))
+        rec.set_shape(("forked", case["nproc"], case["prebuild"], case["rep"]), nontrivial=len(workers) >= 2)
+        rec.observe(forked_workers=case["nproc"], parent_built_first=case["prebuild"],
+                    workers_ok=sum(1 for r in workers.values() if r.get("ok")))
+    finally:
+        shutil.rmtree(work, ignore_errors=True)
+
+
 def run_case(case, rec):
+    if case["kind"] == "forked":
+        return run_forked(case, rec)
     if case["kind"] == "mkdir":
         return run_mkdir(case, rec)
     if case["kind"] == "retry":
